@@ -1017,6 +1017,16 @@ fn compare_optional_asn1values(
     }
 }
 
+/// Verification hook (feature `verif-hooks`): exposes the private set folding.
+#[cfg(feature = "verif-hooks")]
+pub fn verif_fold_constraint_set(
+    set: &SetOperation,
+    char_set: Option<&BTreeMap<usize, char>>,
+    range_constraint: bool,
+) -> Result<Option<SubtypeElements>, GrammarError> {
+    fold_constraint_set(set, char_set, range_constraint)
+}
+
 #[cfg(test)]
 mod tests {
     use crate::intermediate::{constraints::*, *};
